@@ -239,11 +239,13 @@ def execute(op, objs: list | None = None):
         return exc_outcome(e), None
 
 
-def snapshot(obj):
-    """State of a previously created object that later calls must not change."""
+def snapshot(obj) -> dict:
+    """State of a previously created object that later calls must not change (a dict, so that
+    attributes added later - e.g. a cached_property - count as additions, not as a change)."""
     d = getattr(obj, "__dict__", None)
-    return [type(obj).__name__, str.__str__(obj) if isinstance(obj, str) else repr(obj),
-            canon(dict(d)) if d is not None else None]
+    return {"type": type(obj).__name__,
+            "str": str.__str__(obj) if isinstance(obj, str) else canon(obj),
+            "attrs": {str(k): canon(v) for k, v in d.items()} if d is not None else {}}
 
 
 def op_key(op) -> str:
